@@ -1,4 +1,4 @@
-CONSTANTS N = 4 W <- W1111 None <- NoneV MaxSeq = 7 MaxEv = 24 Forkers <- NoForkers HeadsOnly = TRUE LazyFrames = FALSE MaxOthers = 3
+CONSTANTS N = 4 W <- W1111 None <- NoneV Rule <- StdRule MaxSeq = 7 MaxEv = 24 Forkers <- NoForkers HeadsOnly = TRUE LazyFrames = FALSE MaxOthers = 3
 SPECIFICATION Spec
 INVARIANTS NoLateDecision
 CHECK_DEADLOCK FALSE
